@@ -79,11 +79,30 @@ func (pConn *PFCPConn) NewPFCPSession(rseid uint64) (PFCPSession, bool) {
 	return PFCPSession{}, false
 }
 
-// RemoveSession removes session using lseid.
+// releaseSessionResources returns what the UP function allocated for the session:
+// its UE IP address and the F-TEIDs chosen on behalf of the control plane.
+func (pConn *PFCPConn) releaseSessionResources(session PFCPSession) {
+	for _, p := range session.pdrs {
+		if p.UPAllocateFteid {
+			pConn.upf.fteidGenerator.FreeID(p.tunnelTEID)
+		}
+	}
+
+	if ippool := pConn.upf.ippool; ippool != nil && ippool.hasSession(session.localSEID) {
+		if err := ippool.DeallocIP(session.localSEID); err != nil {
+			logger.PfcpLog.Errorf("failed to release UE IP of session %v: %v", session.localSEID, err)
+		}
+	}
+}
+
+// RemoveSession removes session using lseid and releases what was allocated for it,
+// whichever way the session ends.
 func (pConn *PFCPConn) RemoveSession(session PFCPSession) {
 	// Metrics update
 	session.metrics.Delete()
 	pConn.SaveSessions(session.metrics)
+
+	pConn.releaseSessionResources(session)
 
 	if err := pConn.store.DeleteSession(session.localSEID); err != nil {
 		logger.PfcpLog.Errorf("failed to delete PFCP session from store: %v", err)
